@@ -114,6 +114,8 @@ class StackSim:
         for lg in (self.prot.log, self.prot.discovery.log, self.prot.announcer.log, self.prot.subscriber.log, S.LOG):
             lg.disabled = True
         self.prot.transport = RecTransport(self)
+        # an exception that escapes a loop callback (e.g. a collector flush that cannot be encoded) is recorded where and when it happens
+        self.loop.set_exception_handler(lambda loop, ctx: self.emit([5, conv.err_code(ctx.get("exception")) if ctx.get("exception") else 98]))
         self.clients = {}
         self.insts = {}
         for iid, svc, reject in sc["insts"]:
